@@ -3,7 +3,7 @@
    (streaming parser, fixes F6+F7 applied), spec: model/MultipartRef.v ([ref],
    the one-piece scanner built on [findb] only, and [wf_prefix]). *)
 From Verif Require Import lib.Base lib.Str gen.Gen model.MultipartRef model.Multipart
-  proofs.C06_pattern proofs.C06_model_pins proofs.C06_core proofs.C06_global proofs.C06_wf.
+  proofs.C06_pattern proofs.C06_model_pins proofs.C06_core proofs.C06_global proofs.C06_wf proofs.C06_arbitrary.
 
 (* the regular expression re-implemented by Multipart.hsearch is the one in the source *)
 Theorem C06_end_headers_regex_pinned :
@@ -136,6 +136,30 @@ Theorem C06_split_independent_pairwise :
 Proof. exact split_independent_pairwise. Qed.
 Print Assumptions C06_split_independent_pairwise.
 
+(* ---- arbitrary input: data sections are closed by a real, first delimiter ---- *)
+
+(* For EVERY boundary without CR, ANY bytes and ANY division into chunks (no
+   wf_prefix): every Data section (s, e) the streaming parser reports after the
+   first (preamble) section satisfies 0 <= s <= e, the delimiter CRLF--B occurs in
+   the concatenated body at offset e and fits into it (no invented delimiter, no
+   truncated part), and it is the FIRST occurrence at or after s (no delimiter is
+   swallowed into a part's data). *)
+Theorem C06_data_sections_closed_any_input :
+  forall (B : bytes) (chunks : list bytes) (first : section) (rest : list section) (s e : Z),
+    contains_char N.eqb CR B = false ->
+    fst (markup_chunks B chunks) = first :: rest ->
+    In (Data, s, e) rest ->
+    let body := concat chunks in
+    let tok := token B in
+    exists ds q,
+      s = Z.of_nat ds /\ e = Z.of_nat (ds + q) /\
+      ds + q + length tok <= length body /\
+      prefixb tok (skipn (ds + q) body) = true /\
+      (forall j, j < q -> prefixb tok (skipn (ds + j) body) = false) /\
+      findb tok (skipn ds body) = Some q.
+Proof. exact data_sections_closed_any_input. Qed.
+Print Assumptions C06_data_sections_closed_any_input.
+
 (* ---- the hypothesis: which bodies are well-formed prefixes ---- *)
 
 (* wf_prefix is closed under taking prefixes ("... and all their prefixes"). *)
@@ -233,3 +257,12 @@ Proof.
   cbv zeta. split; [|vm_compute; reflexivity].
   repeat constructor; cbn; try discriminate; try (intros H; repeat destruct H as [H|H]; try discriminate H; exact H).
 Qed.
+
+(* arbitrary input, non-vacuous: a malformed body (header block with "CR LF LF" at a
+   chunk end, which the header-end regex mistakes for CRLF) still yields a Data
+   section, and it is closed by the real delimiter at offset 14 *)
+Example C06_any_input_nonvacuous :
+  markup_chunks [66]%N [[45;45;66;13;10;97;13;10;10]; [13;10;100;100;100;13;10;45;45;66;45;45]]%N
+  = ([(Data, 0, 0); (Headers, 5, 7); (Data, 11, 14)]%Z, None)
+  /\ wf_prefixb [66]%N [45;45;66;13;10;97;13;10;10;13;10;100;100;100;13;10;45;45;66;45;45]%N = false.
+Proof. vm_compute. split; reflexivity. Qed.
